@@ -254,7 +254,7 @@ pub fn run(ctx: &Ctx) -> EvidenceMeta {
       ctx.enumerate(s, cases.into_iter(), true);
     }));
     let cost = s.x.cost().max(s.y.cost()).min(20);
-    let n = (ctx.n(240, 12_000) / cost).max(12);
+    let n = (ctx.n(2000, 30_000) / cost).max(60);
     jobs.push(Box::new(move || ctx.prop(s, case(s.x, s.y), n)));
   }
   run_jobs(jobs);
